@@ -176,6 +176,29 @@ def r5(ctx, P=P, rule="C07.R5"):
               "both valid: [h1, h2]; only slot 1: [h1, h1] (equal => slot 1 current); only slot 2: [!h2, h2] (different => slot 2 current)",
               "Oplog::open remembers header bits %s (slot, negated) — expected [h1,h2] / [h1,h1] / [!h2,h2]: with other bits get_current_header_bit() and the slot rotation disagree with the header that was actually loaded, so the entries written under it are skipped and the next flush overwrites the only valid slot" % got,
               [s for s, _, _ in shapes], key="%s|%s|Oplog::open|header bits vs chosen slot" % (P, rule))
+    # a brand-new log: the bits remembered are those returned by the header write that created it
+    # (insert_header flips the bit of the slot it writes; keeping the initial bits makes the first
+    # flush overwrite the only valid header in place, with no second copy to fall back on)
+    n_fresh = 0
+    for fx in ctx.all_fas():
+        nm_ = fn_of(fx.body.name)
+        if nm_ in (OPLOG_OPEN, OPLOG_FLUSH) or not nm_.startswith("oplog::"):
+            continue
+        ih = sites(fx, INSERT_HEADER)
+        if not ih:
+            continue
+        for b in fx.live():
+            for si, st in enumerate(b.stmts):
+                if st["k"] == "assign" and st["rv"]["k"] == "agg" and st["rv"].get("name") == OPLOG and "header_bits" in st["rv"]["fields"]:
+                    n_fresh += 1
+                    t = fx.origin_operand(st["rv"]["ops"][st["rv"]["fields"].index("header_bits")], b.i, si)
+                    rs = roots(t)
+                    good = bool(rs) and all(r[0] == "field" and r[2] == "0" and term_has_call(r, INSERT_HEADER) in ih for r in rs)
+                    ctx.check(P, rule, "%s: a new log remembers the header bits its header write returned" % nm_.split("::")[-1], good, "Oplog { header_bits: insert_header(..).0, .. }",
+                              "%s builds the Oplog with header_bits = %s, not the bits returned by its insert_header call: memory and disk disagree on which slot is current until the first flush, which then overwrites the only valid header slot in place" % (nm_.split("::")[-1], term_str(t)[:80]),
+                              [loc(fx, b.i, si)], key="%s|%s|%s|header bits of a new log" % (P, rule, nm_.split("::")[-1]))
+    if n_fresh < 1 and ctx.crate.name == "hypercore":
+        ctx.missing(P, rule, "construction of a new Oplog next to its first insert_header", "found %d (floor 1)" % n_fresh)
     fc = ctx.fn(CUR_HDR_BIT)
     if need(ctx, P, rule, CUR_HDR_BIT, fc):
         r = [t for _, _, t in ret_assigns(fc)]
